@@ -50,9 +50,15 @@ func fold(cond string) string {
 		return "malformed"
 	case cond == "stale" || cond == "other":
 		return "different-tag"
+	case strings.HasPrefix(cond, "near-"):
+		return "near-miss-tag"
 	}
 	return cond
 }
+
+// nearConds are well-formed tags that differ from the current one by very
+// little; like "other" they are not the current tag.
+var nearConds = []string{"near-prefix", "near-ext", "near-case", "near-byte"}
 
 type prodCase struct {
 	Part   string `json:"part"`
@@ -70,6 +76,26 @@ type prodCase struct {
 	// resource: "slash" (/t/), "dotseg" (/./t), "dblslash" (//t), "updown"
 	// (/x/../t). The verdict is the cell's.
 	Spell string `json:"spell,omitempty"`
+	// Ctx: the state of the request's context when the handler gets to see
+	// the request: "" (live), "cancelled" or "deadline" (already done). The
+	// preconditions evaluate to what they evaluate to with a live context; a
+	// server may give up on such a request (5xx), it may not change its mind
+	// about the resource.
+	Ctx string `json:"request_context,omitempty"`
+	// Near: the "stale" tag is the one the server announced for an earlier
+	// state of the file that the file system distinguishes from the current
+	// one by very little: the modification time differs by NearDeltaNs
+	// nanoseconds and the size is the same ("mtime-1ns", "mtime-sub-us",
+	// "mtime-sub-ms", "mtime-sub-s"), or the size differs by one byte and
+	// the modification time is the same ("size-1"). The content differs.
+	// Place: where the resource and the served directory are: "" (/t below
+	// a served directory named by its clean absolute path), "nested" (/d/t),
+	// "root-slash" / "root-dot" (the served directory is named with a
+	// trailing slash / through a "." element). The verdict is the cell's.
+	Place       string `json:"place,omitempty"`
+	Near        string `json:"near,omitempty"`
+	NearBaseNs  int64  `json:"near_mtime_ns,omitempty"`
+	NearDeltaNs int64  `json:"near_delta_ns,omitempty"`
 	// filled while executing (for the witness)
 	IMValue  string `json:"if_match_value,omitempty"`
 	INMValue string `json:"if_none_match_value,omitempty"`
@@ -145,6 +171,8 @@ type fixture struct {
 	curHdr   string // header value of the current tag
 	staleHdr string // header value of a tag the resource had earlier
 	curRaw   string // current tag without quotes when it is plain, else ""
+	rel      string // the resource's name relative to the served directory: "t" or "d/t"
+	coarse   bool   // the file system did not keep a modification time as set
 }
 
 func plainTag(s string) bool {
@@ -193,31 +221,65 @@ func serverTag(h *tap, target string) (string, error) {
 
 // buildFixture creates root with keep.txt and the resource "t" in the given
 // state, having had two different tags in its life.
-func buildFixture(dir, state string) (*fixture, error) {
+func buildFixture(dir, state string, cs *prodCase) (*fixture, error) {
 	root := filepath.Join(dir, "root")
 	if err := os.MkdirAll(root, 0755); err != nil {
 		return nil, err
 	}
-	fx := &fixture{root: root}
-	fx.h = &tap{inner: &webdav.Handler{FileSystem: webdav.LocalFileSystem(root)}}
+	fx := &fixture{root: root, rel: "t"}
+	served := root
+	if cs != nil {
+		switch cs.Place {
+		case "nested":
+			fx.rel = "d/t"
+			if err := os.Mkdir(filepath.Join(root, "d"), 0755); err != nil {
+				return nil, err
+			}
+		case "root-slash":
+			served = root + "/"
+		case "root-dot":
+			served = dir + "/./root"
+		}
+	}
+	url := "/" + fx.rel
+	fx.h = &tap{inner: &webdav.Handler{FileSystem: webdav.LocalFileSystem(served)}}
 	if err := writeAt(filepath.Join(root, "keep.txt"), "keep", tRoot); err != nil {
 		return nil, err
 	}
-	t := filepath.Join(root, "t")
+	t := filepath.Join(root, filepath.FromSlash(fx.rel))
+	// the earlier and the current state of the file
+	oldData, oldTime, curData, curTime := "old!", tStale, "current-body", tCur
+	if cs != nil && cs.Near != "" {
+		curTime = time.Unix(0, cs.NearBaseNs)
+		oldTime = time.Unix(0, cs.NearBaseNs+cs.NearDeltaNs)
+		oldData = "earlier-body" // as long as the current content
+		if cs.Near == "size-1" {
+			oldData = "earlier-body!"
+		}
+	}
+	// stored: the file system keeps the modification time exactly as set
+	// (states it cannot tell apart are no two states for any server)
+	stored := func(p string, want time.Time) {
+		if st, err := os.Stat(p); err != nil || st.ModTime().UnixNano() != want.UnixNano() {
+			fx.coarse = true
+		}
+	}
 	switch state {
 	case "absent", "file":
-		if err := writeAt(t, "old!", tStale); err != nil {
+		if err := writeAt(t, oldData, oldTime); err != nil {
 			return nil, err
 		}
-		v, err := serverTag(fx.h, "/t")
+		stored(t, oldTime)
+		v, err := serverTag(fx.h, url)
 		if err != nil {
 			return nil, err
 		}
 		fx.staleHdr = v
-		if err := writeAt(t, "current-body", tCur); err != nil {
+		if err := writeAt(t, curData, curTime); err != nil {
 			return nil, err
 		}
-		if v, err = serverTag(fx.h, "/t"); err != nil {
+		stored(t, curTime)
+		if v, err = serverTag(fx.h, url); err != nil {
 			return nil, err
 		}
 		fx.curHdr = v
@@ -227,22 +289,24 @@ func buildFixture(dir, state string) (*fixture, error) {
 			}
 		}
 	case "link":
-		lt := filepath.Join(root, "lt.txt")
-		if err := writeAt(lt, "old!", tStale); err != nil {
+		lt := filepath.Join(filepath.Dir(t), "lt.txt")
+		if err := writeAt(lt, oldData, oldTime); err != nil {
 			return nil, err
 		}
+		stored(lt, oldTime)
 		if err := os.Symlink("lt.txt", t); err != nil {
 			return nil, err
 		}
-		v, err := serverTag(fx.h, "/t")
+		v, err := serverTag(fx.h, url)
 		if err != nil {
 			return nil, err
 		}
 		fx.staleHdr = v
-		if err := writeAt(lt, "current-body", tCur); err != nil {
+		if err := writeAt(lt, curData, curTime); err != nil {
 			return nil, err
 		}
-		if v, err = serverTag(fx.h, "/t"); err != nil {
+		stored(lt, curTime)
+		if v, err = serverTag(fx.h, url); err != nil {
 			return nil, err
 		}
 		fx.curHdr = v
@@ -253,8 +317,8 @@ func buildFixture(dir, state string) (*fixture, error) {
 		if err := os.Chtimes(t, tStale, tStale); err != nil {
 			return nil, err
 		}
-		lfs := webdav.LocalFileSystem(root)
-		fi, err := lfs.Stat(context.Background(), "/t")
+		lfs := webdav.LocalFileSystem(served)
+		fi, err := lfs.Stat(context.Background(), url)
 		if err != nil {
 			return nil, err
 		}
@@ -276,7 +340,7 @@ func buildFixture(dir, state string) (*fixture, error) {
 		if err := os.Chtimes(t, tCur, tCur); err != nil {
 			return nil, err
 		}
-		if fi, err = lfs.Stat(context.Background(), "/t"); err != nil {
+		if fi, err = lfs.Stat(context.Background(), url); err != nil {
 			return nil, err
 		}
 		if fi.ETag == "" {
@@ -287,6 +351,11 @@ func buildFixture(dir, state string) (*fixture, error) {
 			fx.staleHdr = ""
 		} else {
 			fx.curHdr = quoteTag(fi.ETag)
+		}
+	}
+	if fx.rel != "t" {
+		if err := os.Chtimes(filepath.Dir(t), tRoot, tRoot); err != nil {
+			return nil, err
 		}
 	}
 	if err := os.Chtimes(root, tRoot, tRoot); err != nil {
@@ -325,12 +394,44 @@ func (fx *fixture) value(cond string) string {
 	case "unterminated":
 		return cur[:len(cur)-1]
 	}
-	return ""
+	// near misses of a plain current tag ("" = there is none for this fixture)
+	raw := fx.curRaw
+	if raw == "" {
+		return ""
+	}
+	near := ""
+	switch cond {
+	case "near-prefix":
+		near = raw[:len(raw)-1]
+	case "near-ext":
+		near = raw + "0"
+	case "near-case":
+		near = strings.ToUpper(raw)
+		if near == raw {
+			near = strings.ToLower(raw)
+		}
+	case "near-byte":
+		last := byte('0')
+		if raw[len(raw)-1] == '0' {
+			last = '1'
+		}
+		near = raw[:len(raw)-1] + string(last)
+	}
+	if near == "" || near == raw {
+		return ""
+	}
+	return `"` + near + `"`
 }
 
 // --- effect classification ----------------------------------------------------
 
-func underT(k string) bool { return k == "t" || strings.HasPrefix(k, "t/") }
+func under(rel, k string) bool { return k == rel || strings.HasPrefix(k, rel+"/") }
+
+// holder: the collections whose own mtime a write to rel may move (the served
+// directory and the collection that holds the resource).
+func holder(rel, k string) bool {
+	return k == "" || (strings.Contains(rel, "/") && k == rel[:strings.LastIndex(rel, "/")])
+}
 
 // strictDiff lists every difference incl. directory mtimes.
 func strictDiff(a, b mon.Snap) []string {
@@ -345,7 +446,8 @@ func strictDiff(a, b mon.Snap) []string {
 }
 
 // classify names the effect of one request on the tree.
-func classify(before, after mon.Snap, putBody string) (class string, diff []string) {
+func classify(before, after mon.Snap, putBody, rel string) (class string, diff []string) {
+	underT := func(k string) bool { return under(rel, k) }
 	diff = strictDiff(before, after)
 	if len(diff) == 0 {
 		return "unchanged", nil
@@ -353,7 +455,7 @@ func classify(before, after mon.Snap, putBody string) (class string, diff []stri
 	// everything outside t (and the root's own mtime) must be as before
 	othersSame := true
 	for k, ea := range before {
-		if underT(k) || k == "" {
+		if underT(k) || holder(rel, k) {
 			continue
 		}
 		eb, ok := after[k]
@@ -362,7 +464,7 @@ func classify(before, after mon.Snap, putBody string) (class string, diff []stri
 		}
 	}
 	for k := range after {
-		if underT(k) || k == "" {
+		if underT(k) || holder(rel, k) {
 			continue
 		}
 		if _, ok := before[k]; !ok {
@@ -378,8 +480,8 @@ func classify(before, after mon.Snap, putBody string) (class string, diff []stri
 			tAfter++
 		}
 	}
-	_, hadT := before["t"]
-	if e, ok := after["t"]; ok && !e.Dir && e.Data == putBody && tAfter == 1 {
+	_, hadT := before[rel]
+	if e, ok := after[rel]; ok && !e.Dir && e.Data == putBody && tAfter == 1 {
 		return "put-applied", diff
 	}
 	if tAfter == 0 && hadT {
@@ -413,19 +515,27 @@ type outcome struct {
 func runCell(c *fw.Ctx, cs *prodCase) (*outcome, error) {
 	dir := freshDir(c, "prod")
 	defer os.RemoveAll(dir)
-	fx, err := buildFixture(dir, cs.State)
+	fx, err := buildFixture(dir, cs.State, cs)
 	if err != nil {
 		return nil, err
+	}
+	if cs.Near != "" && fx.coarse {
+		return &outcome{skipped: "the file system does not keep modification times as set: the two states may be one"}, nil
 	}
 	if fx.noTag {
 		if cs.IM == "current" || cs.IM == "stale" || cs.INM == "current" || cs.INM == "stale" {
 			return &outcome{skipped: "the resource announces no entity tag: no current or stale value to send"}, nil
 		}
-	} else if fx.curHdr == fx.staleHdr || fx.curHdr == otherHdr || fx.staleHdr == otherHdr {
+	} else if fx.curHdr == otherHdr || fx.staleHdr == otherHdr || (fx.curHdr == fx.staleHdr && cs.Near == "") {
+		// (in the near family the earlier state's tag is sent whatever it
+		// is: it belongs to a state that is not the current one)
 		return nil, fmt.Errorf("tags not pairwise distinct: current %s stale %s", fx.curHdr, fx.staleHdr)
 	}
 	var hs []hdr
 	cs.IMValue, cs.INMValue = fx.value(cs.IM), fx.value(cs.INM)
+	if (cs.IM != "unset" && cs.IMValue == "") || (cs.INM != "unset" && cs.INMValue == "") {
+		return &outcome{skipped: "no such near miss of the current tag"}, nil
+	}
 	if cs.IM != "unset" {
 		hs = append(hs, hdr{"If-Match", cs.IMValue})
 	}
@@ -447,19 +557,22 @@ func runCell(c *fw.Ctx, cs *prodCase) (*outcome, error) {
 		return nil, err
 	}
 	fx.h.last = nil
-	target := map[string]string{"": "/t", "slash": "/t/", "dotseg": "/./t", "dblslash": "//t", "updown": "/x/../t"}[cs.Spell]
+	fx.h.done = cs.Ctx
+	defer func() { fx.h.done = "" }()
+	target := map[string]string{"": "/" + fx.rel, "slash": "/t/", "dotseg": "/./t", "dblslash": "//t", "updown": "/x/../t"}[cs.Spell]
 	rp := do(fx.h, cs.Method, target, hs, body)
+	fx.h.done = ""
 	after, err := mon.Snapshot(fx.root)
 	if err != nil {
 		return nil, err
 	}
 	o := &outcome{status: rp.Status, panic: rp.Panic, err: rp.Err, seen: fx.h.last, fx: fx, shape: after.Shape()}
-	o.effect, o.diff = classify(before, after, putBody)
+	o.effect, o.diff = classify(before, after, putBody, fx.rel)
 	if cs.State == "link" && o.effect != "unchanged" {
 		// Whether a write goes through the link or replaces it is not the
 		// statement's business: the effect is judged by what GET serves
 		// afterwards.
-		g := do(fx.h, "GET", "/t", nil, nil)
+		g := do(fx.h, "GET", "/"+fx.rel, nil, nil)
 		switch {
 		case g.Status == 200 && string(g.Body) == putBody:
 			o.effect = "put-applied"
@@ -475,7 +588,7 @@ func runCell(c *fw.Ctx, cs *prodCase) (*outcome, error) {
 const putBody = "NEW-CONTENT-FROM-CONDITIONAL-PUT"
 
 // baseline of the unconditional PUT onto a collection (per worker).
-var putCollBaseline *outcome
+var putCollBaseline = map[string]*outcome{} // by placement
 
 func execProduct(c *fw.Ctx, cs prodCase) {
 	cs.Part = "product"
@@ -495,7 +608,7 @@ func execProduct(c *fw.Ctx, cs prodCase) {
 		return
 	}
 	c.Eval(1)
-	c.Distinct("product|" + cs.Method + "|" + cs.State + "|" + cs.IM + "|" + cs.INM + "|" + cs.Extra + "|" + cs.Spell)
+	c.Distinct("product|" + cs.Method + "|" + cs.State + "|" + cs.IM + "|" + cs.INM + "|" + cs.Extra + "|" + cs.Spell + "|" + cs.Ctx + "|" + cs.Near + "|" + cs.Place)
 	cs.Status, cs.Effect, cs.Diff = o.status, o.effect, strings.Join(o.diff, "; ")
 
 	exists := cs.State != "absent"
@@ -511,6 +624,27 @@ func execProduct(c *fw.Ctx, cs prodCase) {
 	if cs.Spell != "" {
 		keyHead = cs.Method + "|" + cs.State + "|" + fold(cs.IM) + "|" + fold(cs.INM) + "|path spelled " + cs.Spell + "|want "
 	}
+	if cs.Place != "" {
+		keyHead = cs.Method + "|" + cs.State + "|" + fold(cs.IM) + "|" + fold(cs.INM) + "|placement " + cs.Place + "|want "
+	}
+	if cs.Near != "" {
+		// one key per (method, which header carries the earlier state's tag,
+		// what the two states differ in)
+		differs := "modification time"
+		if cs.Near == "size-1" {
+			differs = "size"
+		}
+		keyHead = cs.Method + "|existing file|If-Match " + nearFold(cs.IM) + "|If-None-Match " + nearFold(cs.INM) + "|earlier state differs in " + differs + " only|want "
+	}
+	if cs.Ctx != "" {
+		// coarse: one defect in how a done context is handled is a few keys
+		res := "existing file"
+		switch cs.State {
+		case "absent", "collection":
+			res = cs.State
+		}
+		keyHead = cs.Method + "|" + res + "|request context already done|want "
+	}
 	if o.panic != "" {
 		c.Report(keyHead+v.want+"|got panic", "handler panicked: "+o.panic, cs)
 		return
@@ -524,18 +658,37 @@ func execProduct(c *fw.Ctx, cs prodCase) {
 	got := fmt.Sprintf("got %d %s", o.status, o.effect)
 
 	putOnColl := cs.Method == "PUT" && cs.State == "collection"
+	if cs.Ctx != "" {
+		c.Observe("product under a done request context ("+cs.Ctx+")", fmt.Sprintf("%s -> %d %s", v.want, o.status, o.effect), 1)
+		// The statement does not speak of requests nobody waits for any
+		// more: a server may give up on one (5xx / 408). What stays: a
+		// request whose preconditions fail changes nothing, and one that is
+		// given up either changes nothing or did what the request asked.
+		if o.status >= 500 || o.status == 408 {
+			switch {
+			case !v.carried && o.effect != "unchanged":
+				c.Report(keyHead+v.want+"|"+got,
+					fmt.Sprintf("%s on %s resource with If-Match=%s If-None-Match=%s under a request context that is already done (%s): the preconditions fail, yet the tree changed: %s", cs.Method, cs.State, q(cs.IMValue), q(cs.INMValue), cs.Ctx, cs.Diff), cs)
+			case v.carried && o.effect != "unchanged" && !(cs.Method == "PUT" && !putOnColl && o.effect == "put-applied") && !(cs.Method == "DELETE" && exists && o.effect == "deleted"):
+				c.Report(keyHead+v.want+" or given up|"+got,
+					fmt.Sprintf("%s on %s resource under a request context that is already done (%s): answered %d and left neither the old nor the requested state: %s", cs.Method, cs.State, cs.Ctx, o.status, cs.Diff), cs)
+			}
+			return
+		}
+		// any other answer is judged like the same request with a live context
+	}
 	if putOnColl {
-		if putCollBaseline == nil {
-			b := prodCase{Part: "product", Method: "PUT", State: "collection", IM: "unset", INM: "unset"}
+		if putCollBaseline[cs.Place] == nil {
+			b := prodCase{Part: "product", Method: "PUT", State: "collection", IM: "unset", INM: "unset", Place: cs.Place}
 			bo, err := runCell(c, &b)
 			if err != nil || bo.err != "" || bo.panic != "" {
 				c.Inconclusive(fmt.Sprintf("C04 product: no baseline for PUT on a collection: %v %v", err, bo))
 				return
 			}
-			putCollBaseline = bo
+			putCollBaseline[cs.Place] = bo
 			c.Observe("product baseline", fmt.Sprintf("unconditional PUT on collection -> %d %s", bo.status, bo.effect), 1)
 		}
-		base := putCollBaseline
+		base := putCollBaseline[cs.Place]
 		okStatus := o.status == 405 || o.status == base.status || v.statuses[o.status]
 		switch {
 		case !okStatus:
@@ -596,6 +749,18 @@ func runProduct(c *fw.Ctx) {
 							execProduct(c, prodCase{Method: m, State: st, IM: im, INM: inm, Spell: sp})
 							c.Observe("universe", "product cell repeated under another spelling of the path ("+sp+")", 1)
 						}
+						// ... one cell in four at another placement of the
+						// resource or another naming of the served directory
+						if idx%4 == (idx/4)%4 {
+							pl := []string{"nested", "root-slash", "nested", "root-dot"}[(idx/16)%4]
+							execProduct(c, prodCase{Method: m, State: st, IM: im, INM: inm, Place: pl})
+							c.Observe("universe", "product cell repeated at another placement ("+pl+")", 1)
+						}
+						// ... and once as a request whose context is done before
+						// the handler sees it (unconditional requests too: they
+						// give the table its baseline)
+						execProduct(c, prodCase{Method: m, State: st, IM: im, INM: inm, Ctx: []string{"cancelled", "deadline"}[(idx/4)%2]})
+						c.Observe("universe", "product cell repeated under a request context that is already done", 1)
 						if inm != "unset" {
 							execProduct(c, prodCase{Method: m, State: st, IM: im, INM: inm, Extra: "if-modified-since-future"})
 							c.Observe("universe", "product cell repeated with If-Modified-Since (ignored next to If-None-Match)", 1)
@@ -607,6 +772,76 @@ func runProduct(c *fw.Ctx) {
 		}
 	}
 	c.Note("exhaustive_part", "product: {PUT,DELETE} x {absent,file,collection,symbolic link to a file} x If-Match{unset,*,current,stale,other,bare-word,weak,list,unterminated} x If-None-Match{same} = 648 cells, each executed once per run")
+}
+
+// nearFold is the class of a header in the keys of the near family.
+func nearFold(cond string) string {
+	if cond == "stale" {
+		return "tag of the earlier state"
+	}
+	return fold(cond)
+}
+
+var (
+	nearClasses = []string{"mtime-1ns", "mtime-sub-us", "mtime-sub-ms", "mtime-sub-s", "size-1"}
+	// the earlier state's tag is not the current one: in If-Match it fails,
+	// in If-None-Match it holds
+	nearCombos = [][2]string{{"stale", "unset"}, {"unset", "stale"}, {"current", "stale"}, {"stale", "other"}}
+)
+
+// runNear: the stale tag of the product is years and eight bytes away from
+// the current one. Here the two states of the file are as close as the file
+// system can tell apart (set with os.Chtimes, never by waiting), and the tags
+// sent differ from the current tag by one character.
+func runNear(c *fw.Ctx) {
+	idx := 0
+	reps := c.Pick(3, 40)
+	for rep := 0; rep < reps; rep++ {
+		for _, class := range nearClasses {
+			for _, m := range methods {
+				for _, st := range []string{"file", "link"} {
+					for _, combo := range nearCombos {
+						if c.Mine(idx) {
+							r := c.Rand("c04-near", idx)
+							cs := prodCase{Method: m, State: st, IM: combo[0], INM: combo[1], Near: class}
+							// 2000-01-01 .. 2030-01-01, any nanosecond
+							cs.NearBaseNs = 946684800e9 + r.Int63n(946771200e9)
+							switch class {
+							case "mtime-1ns":
+								cs.NearDeltaNs = 1
+							case "mtime-sub-us":
+								cs.NearDeltaNs = 2 + r.Int63n(998)
+							case "mtime-sub-ms":
+								cs.NearDeltaNs = 1000 + r.Int63n(999000)
+							case "mtime-sub-s":
+								cs.NearDeltaNs = 1000000 + r.Int63n(999000000)
+							}
+							if r.Intn(2) == 0 {
+								// the earlier state may carry the later time (a restore, a clock step)
+								cs.NearDeltaNs = -cs.NearDeltaNs
+							}
+							execProduct(c, cs)
+							c.Observe("universe", "near family: earlier state "+class+" away", 1)
+						}
+						idx++
+					}
+				}
+			}
+		}
+	}
+	for _, m := range methods {
+		for _, st := range []string{"file", "link"} {
+			for _, nc := range nearConds {
+				for _, combo := range [][2]string{{nc, "unset"}, {"unset", nc}, {"current", nc}, {nc, "*"}} {
+					if c.Mine(idx) {
+						execProduct(c, prodCase{Method: m, State: st, IM: combo[0], INM: combo[1]})
+						c.Observe("universe", "near family: tag one character away from the current one ("+nc+")", 1)
+					}
+					idx++
+				}
+			}
+		}
+	}
 }
 
 // --- announce -----------------------------------------------------------------------
